@@ -158,3 +158,41 @@ void h_setters(void){
   }
   __CPROVER_assert(0, "VACUITY-CANARY");
 }
+
+//@ text2
+/* main body: the lambdas are stubs.  f_constrained rewrites the cache it is given; update() may create or improve best-known entries, in particular it may
+ * turn the swarm-best flag on (never off).  The random source is logged. */
+int g_draws, g_draws_iter; bool g_flag_at_begin; int g_iter_begun;
+double cb_get_random01(void){ g_draws++; g_draws_iter++; return nondet_double(); }
+void stub_f_constrained(ParticleSwarmState *s, int which){
+  if (which == 0) for (size_t i = 0; i < TSG_NP; i++) { s->cache_particle_fvals[i] = nondet_double(); s->cache_particle_inside[i] = nondet_bool(); }
+  else for (size_t i = 0; i < TSG_NP1; i++) { s->cache_best_particle_fvals[i] = nondet_double(); s->cache_best_particle_inside[i] = nondet_bool(); }
+}
+void stub_update(ParticleSwarmState *s, size_t np){
+  for (size_t i = 0; i < TSG_NP1; i++) if (i <= np && !s->cache_best_particle_inside[i] && nondet_bool()) s->cache_best_particle_inside[i] = true;
+}
+static void check_draws(const ParticleSwarmState *s, size_t np){
+  if (g_iter_begun > 0)
+    __CPROVER_assert(g_draws_iter == (int)(g_flag_at_begin ? 2 * np : np), "C20 an iteration consumes 2 draws per particle when the swarm has a best point at its start and 1 otherwise (n then m iterations see the same random stream as n+m)");
+}
+void tsg_iteration_begins(ParticleSwarmState *s, size_t np){ check_draws(s, np); g_flag_at_begin = s->cache_best_particle_inside[np]; g_draws_iter = 0; g_iter_begun++; }
+bool tsg_mode(bool tested, const ParticleSwarmState *s, size_t np){
+  __CPROVER_assert(tested == s->cache_best_particle_inside[np], "C20 the velocity update of an iteration is chosen by the swarm-best flag of the state as it is at the start of that iteration (so that n then m iterations equal n+m)");
+  return tested;
+}
+
+//@ harness h_main
+void h_main(void){
+  ParticleSwarmState st;
+  size_t a_np = nondet_size_t(), a_nd = nondet_size_t(); int a_iter = nondet_int();
+  __CPROVER_assume(a_np >= 1 && a_np <= TSG_NP && a_nd >= 1 && a_nd <= TSG_NDIM && a_iter <= TSG_NIT);
+  st.num_particles = (int) a_np; st.num_dimensions = (int) a_nd;
+  st.positions_initialized = true; st.velocities_initialized = true; st.best_positions_initialized = nondet_bool(); st.cache_initialized = nondet_bool();
+  for (size_t i = 0; i < TSG_NP1; i++) { st.cache_best_particle_inside[i] = nondet_bool(); if (i < TSG_NP) st.cache_particle_inside[i] = nondet_bool(); }
+  g_draws = 0; g_draws_iter = 0; g_iter_begun = 0;
+  ParticleSwarm_main(a_iter, nondet_double(), nondet_double(), nondet_double(), &st);
+  check_draws(&st, a_np);
+  __CPROVER_assert(g_iter_begun == (a_iter > 0 ? a_iter : 0), "C20 exactly num_iterations iterations");
+  __CPROVER_assert(st.cache_initialized && st.best_positions_initialized, "C20 after a run the cache and the best positions are marked initialised");
+  __CPROVER_assert(0, "VACUITY-CANARY");
+}
